@@ -664,7 +664,7 @@ func (e *effEngine) callRet(fn *ssa.Function, call *ssa.Call, idx int) pathSet {
 		}
 		return out
 	}
-	callees := e.c.calleesOf(call)
+	callees := e.feasibleCallees(call)
 	any := false
 	for _, cal := range callees {
 		if !e.c.inPkg(cal) && cal.Pkg != e.c.SG {
@@ -967,7 +967,7 @@ func (e *effEngine) recordCall(fn *ssa.Function, st *fnLocal, call ssa.CallInstr
 			}
 		}
 	}
-	for _, cal := range e.c.calleesOf(call) {
+	for _, cal := range e.feasibleCallees(call) {
 		if !e.c.inPkg(cal) && cal.Pkg != e.c.SG {
 			continue
 		}
@@ -1005,6 +1005,9 @@ func (e *effEngine) liftCallee(fn *ssa.Function, st *fnLocal, call ssa.CallInstr
 		for _, tp := range targets {
 			ne := ce
 			ne.target = tp
+			if ce.owner == "" {
+				ne.elemOf = lastField(tp)
+			}
 			if ce.needLen >= 0 {
 				args := call.Common().Args
 				idx := ce.needLen
@@ -1285,4 +1288,56 @@ func spilledParam(v ssa.Value) *ssa.Parameter {
 		}
 	}
 	return found
+}
+
+// feasibleCallees refines the call graph's callees of an interface invoke by the type-assertion
+// facts that dominate the call: if the receiver value is (an assertion of) x and `x.(T)` is known to
+// have failed on every path to the call, no method with receiver type T can be the callee.
+func (e *effEngine) feasibleCallees(call ssa.CallInstruction) []*ssa.Function {
+	all := e.c.calleesOf(call)
+	cc := call.Common()
+	if !cc.IsInvoke() || len(all) < 2 {
+		return all
+	}
+	// root of the receiver value
+	rootOf := func(v ssa.Value) ssa.Value {
+		for i := 0; i < 6; i++ {
+			switch t := v.(type) {
+			case *ssa.Extract:
+				if ta, ok := t.Tuple.(*ssa.TypeAssert); ok {
+					v = ta.X
+					continue
+				}
+			case *ssa.TypeAssert:
+				v = t.X
+				continue
+			case *ssa.ChangeInterface:
+				v = t.X
+				continue
+			case *ssa.MakeInterface:
+				v = t.X
+				continue
+			}
+			break
+		}
+		return v
+	}
+	recv := rootOf(cc.Value)
+	excluded := map[string]bool{}
+	for _, f := range assertFacts(call.(ssa.Instruction).Block()) {
+		if !f.holds && sameVal(rootOf(f.x), recv) {
+			excluded[typeStr(f.t)] = true
+		}
+	}
+	if len(excluded) == 0 {
+		return all
+	}
+	var out []*ssa.Function
+	for _, cal := range all {
+		if cal.Signature.Recv() != nil && excluded[typeStr(cal.Signature.Recv().Type())] {
+			continue
+		}
+		out = append(out, cal)
+	}
+	return out
 }
